@@ -2,6 +2,7 @@ package props
 
 import (
 	"fmt"
+	"strings"
 	"time"
 
 	vuego "github.com/titpetric/vuego"
@@ -43,7 +44,7 @@ type c17Embed struct {
 	Mode string `json:"mode"` // root (struct is the root data) | var (struct is a variable, reached by a path)
 }
 
-var c17EmbedRoots = []string{"A", "*A", "B", "P", "P-nil", "*P-nil", "dotkey", "typednil"}
+var c17EmbedRoots = []string{"A", "*A", "B", "P", "P-nil", "*P-nil", "dotkey", "typednil", "shared"}
 
 func c17NEmbed() int { return len(c17EmbedRoots) * 2 }
 
@@ -151,6 +152,10 @@ func c17ExecEmbed(c c17Case, o *core.Obs) {
 		c17ExecDotKey(c, o)
 		return
 	}
+	if c.Embed.Root == "shared" {
+		c17ExecShared(c, o)
+		return
+	}
 	e := *c.Embed
 	inner := C17EmbInner{ID: 7, Title: "inner-title", Only: "only-in"}
 	var val any
@@ -236,6 +241,85 @@ func c17ExecEmbed(c c17Case, o *core.Obs) {
 			if eok != ok || (ok && fmt.Sprint(ev) != fmt.Sprint(got)) {
 				o.Fail(c, sig("envmap-disagrees-with-lookup"), "Lookup(%q) = (%v, %v) but EnvMap()[%q] = (%v, %v)", n, got, ok, n, ev, eok)
 			}
+		}
+	}
+}
+
+// shared: the same non-nil pointer stored in two sibling fields (an acyclic
+// value). Both fields lead to the same data through Resolve, through the
+// merged environment and in a render.
+
+type C17User struct {
+	Name string `json:"name"`
+}
+
+type C17Post struct {
+	Author *C17User `json:"author"`
+	Editor *C17User `json:"editor"`
+	Third  *C17User `json:"third"`
+}
+
+type C17Page struct {
+	Post C17Post `json:"post"`
+}
+
+func c17ExecShared(c c17Case, o *core.Obs) {
+	e := *c.Embed
+	o.Evals++
+	o.NT("embed", mustJSON(e))
+	o.Cell("part/embed/shared/" + e.Mode)
+	ann := &C17User{Name: "ann"}
+	post := C17Post{Author: ann, Editor: ann, Third: &C17User{Name: "ann"}}
+	defer func() {
+		if r := recover(); r != nil {
+			o.Fail(c, "embed/shared/panic/"+e.Mode, "panicked: %v", r)
+		}
+	}()
+	if e.Mode == "var" {
+		// the render flow: the struct is the data of a render
+		out, err := renderStr(`<i>{{ author.name }}|{{ editor.name }}|{{ third.name }}</i><b v-if="editor.name == 'ann'">e</b><u v-if="author.name == 'ann'">a</u>`, post)
+		if err != nil {
+			o.Fail(c, "embed/shared/render-error", "render failed: %v", err)
+			return
+		}
+		if want := `<i>ann|ann|ann</i><b>e</b><u>a</u>`; strings.Join(strings.Fields(out), "") != want {
+			o.Fail(c, "embed/shared/render/second-use-of-a-pointer-is-empty", "data %T{Author: p, Editor: p, Third: q}: want %s, got %s", post, want, out)
+		}
+		return
+	}
+	s := vuego.NewStackWithData(map[string]any{"other": 1}, C17Page{Post: post})
+	env := s.EnvMap()
+	step := func(v any, names ...string) any {
+		m, ok := v.(map[string]any)
+		if !ok {
+			return nil
+		}
+		for _, n := range names {
+			if x, ok := m[n]; ok {
+				return x
+			}
+		}
+		return nil
+	}
+	for _, f := range [][2]string{{"Author", "author"}, {"Editor", "editor"}, {"Third", "third"}} {
+		got, ok := s.Resolve("post." + f[1] + ".name")
+		if !ok || fmt.Sprint(got) != "ann" {
+			o.Fail(c, "embed/shared/resolve-wrong", "Resolve(%q) = (%v, %v), want ann", "post."+f[1]+".name", got, ok)
+		}
+		pm := step(env, "post", "Post")
+		if _, isMap := pm.(map[string]any); !isMap {
+			o.Cell("embed/shared/envmap-holds-the-struct-itself")
+			continue
+		}
+		um := step(pm, f[1], f[0])
+		if _, isMap := um.(map[string]any); !isMap {
+			if um == nil {
+				o.Fail(c, "embed/shared/envmap-disagrees-with-resolve", "Resolve(post.%s.name) = ann but EnvMap()[post] has no %s", f[1], f[1])
+			}
+			continue
+		}
+		if ev := step(um, "name", "Name"); fmt.Sprint(ev) != "ann" {
+			o.Fail(c, "embed/shared/envmap-disagrees-with-resolve", "Resolve(post.%s.name) = ann but EnvMap()[post][%s] = %v (the same pointer is also held by a sibling field)", f[1], f[1], um)
 		}
 	}
 }
